@@ -553,7 +553,8 @@ Inductive fop :=
 | FBsRead (nm : rname) (off lim : Z) (reads : list Z)
 | FGetTree (root : string * Z) (table : list (Z * list (string * Z)))
 | FFindMissing (ds : list (string * Z))
-| FCaps.
+| FCaps
+| FRestart (zstd : bool).   (* the server is stopped and started again on the SAME directory with this --storage_mode *)
 
 Inductive fobs :=
 | OSt (s : status)
@@ -582,12 +583,23 @@ Definition run_op (c : fcfg) (d : dstate) (o : fop) : dstate * fobs :=
   | FFindMissing ds => let '(d', s, l) := find_missing c d ds in
                        (d', match s with SOk => OMiss l | _ => OSt s end)
   | FCaps => (d, OCap (capabilities_max c))
+  | FRestart _ => (d, OSt SOk)
   end.
+
+(* the same configuration under another storage mode *)
+Definition set_mode (zstd : bool) (c : fcfg) : fcfg :=
+  mkFcfg (mkCfg zstd (c_maxblob (fc_disk c)) (c_maxproxy (fc_disk c)) (c_proxy (fc_disk c))) (fc_http_max c) (fc_grpc_max c).
+
+(* a restart keeps what is on disk and indexed (no reservations are pending between requests, no
+   eviction pressure in these histories); only the mode NEW entries are written in changes: the
+   format of an existing entry is a property of the entry (its [legacy] flag / .v1 name) *)
+Definition next_cfg (c : fcfg) (o : fop) : fcfg :=
+  match o with FRestart z => set_mode z c | _ => c end.
 
 Fixpoint run_ops (c : fcfg) (d : dstate) (ops : list fop) : list fobs :=
   match ops with
   | [] => []
-  | o :: t => let '(d', ob) := run_op c d o in ob :: run_ops c d' t
+  | o :: t => let '(d', ob) := run_op c d o in ob :: run_ops (next_cfg c o) d' t
   end.
 
 (* ---- boolean comparison of predicted and observed behaviour ---- *)
